@@ -436,6 +436,9 @@ class AIOKafkaConnection:
         )
 
         if not expect_response:
+            # Nothing will be read back for this request (acks=0), writing is
+            # the only activity the idle check can see on this connection
+            self._last_action = time.monotonic()
             return self._writer.drain()
         fut = self._loop.create_future()
         self._requests.append(
